@@ -354,6 +354,12 @@ func Send(method, rawurl string, options ...SendOption) (*http.Response, error) 
 			if d == backoff.Stop {
 				break // Backoff timed out.
 			}
+			// The previous attempt consumed (and closed) the request body.
+			// Every attempt must carry the complete original body, so if it
+			// cannot be replayed we give up and report the last result.
+			if !rewindBody(req) {
+				break
+			}
 			time.Sleep(d)
 			continue
 		}
@@ -472,6 +478,26 @@ func newRequest(method string, opts *sendOptions) (*http.Request, error) {
 		req.Header.Set(key, val)
 	}
 	return req, nil
+}
+
+// rewindBody gives req a fresh copy of its original body for another attempt.
+// Returns false if req has a body which cannot be replayed: only bodies for
+// which http.NewRequest provides GetBody (bytes.Reader, bytes.Buffer,
+// strings.Reader) can, since the transport may still be reading (and will
+// close) the reader handed to a previous attempt.
+func rewindBody(req *http.Request) bool {
+	if req.Body == nil || req.Body == http.NoBody {
+		return true
+	}
+	if req.GetBody == nil {
+		return false
+	}
+	body, err := req.GetBody()
+	if err != nil {
+		return false
+	}
+	req.Body = body
+	return true
 }
 
 func fallbackToHTTP(
